@@ -206,6 +206,23 @@ GROUPS = {
          effects={"call_insert_internal": ("cuckoo_insert_internal R I bh {self.bucketsize} {self.table} {self.n_elements} {self.rng} {0} {1} {2} log max_num_kicks", "B",
                                            ["self.table", "self.n_elements", "self.rng", "log"], "flowcall"),
                   "call_restore": ("cuckoo_restore_state {self.table} log", "U", ["self.table"], "flowcont")}),
+    dict(file="src/filters/cuckoofilter.rs", impl=r"impl<T, R, B> Filter<T> for CuckooFilter<T, R, B>", fn="union", lean="cuckoo_union", mode="flow",
+         generic=[("R", "Type"), ("I", "Pds.Cuckoo.RngI R"), ("bh", "Nat → Nat")],
+         self=[("bucketsize", "N"), ("n_buckets", "N"), ("l_fingerprint", "N")], self_mut=[("table", "L(N)"), ("n_elements", "N"), ("rng", "R")],
+         extra=[("other_table", "L(N)"), ("other_bucketsize", "N"), ("other_n_buckets", "N"), ("other_l_fingerprint", "N"), ("max_num_kicks", "N")],
+         drop=["other"], returns="B", vec_types={"log": "L(T(N,N))"},
+         subst=[(r"assert!\(\s*self\.buildhasher == other\.buildhasher,\s*\"buildhasher must be equal\",\s*\);", ""),
+                (r"other\.bucketsize", "other_bucketsize", 3), (r"other\.n_buckets", "other_n_buckets", 2),
+                (r"other\.l_fingerprint", "other_l_fingerprint", 2), (r"other\.table\.iter\(\)", "other_table.iter()"),
+                (r"let mut log: Vec<\(usize, u64\)> = vec!\[\];", "let mut log = vec![];"),
+                (r"other\.hash\(&f\)", "bucket_hash(f)"),
+                (r"if let Err\(err\) = self\.insert_internal\(f, i1, i2, &mut log\) \{\s*self\.restore_state\(&log\);\s*self\.n_elements = n_elements_backup;\s*return Err\(err\);\s*\}",
+                 "let r = call_insert_internal(f, i1, i2); if !r { let u = call_restore(); self.n_elements = n_elements_backup; return false; }"),
+                (r"Ok\(\(\)\)", "true")],
+         calls={"bucket_hash": ("bh {0}", "N")},
+         effects={"call_insert_internal": ("cuckoo_insert_internal R I bh {self.bucketsize} {self.table} {self.n_elements} {self.rng} {0} {1} {2} log max_num_kicks", "B",
+                                           ["self.table", "self.n_elements", "self.rng", "log"], "flowcall"),
+                  "call_restore": ("cuckoo_restore_state {self.table} log", "U", ["self.table"], "flowcont")}),
  ],
 }
 STRUCTS = {
